@@ -230,7 +230,7 @@ pub fn run(a: &Args) {
                             kinds_seen.insert(w.tag);
                         }
                     }
-                    let (ver, code, id) = (0x0101u16, (r.next() as u16), r.next() as u32);
+                    let (ver, code, id) = (0x0101u16, hdr_code(&mut r), r.next() as u32);
                     let mut bytes = encode(ver, code, id, &toks);
                     let end = bytes.len();
                     bytes.extend_from_slice(&payload_variant(ci + var));
